@@ -55,8 +55,14 @@ type Body struct {
 	Live bool
 }
 
+// ErrBodyClosed is what net/http's body returns when it is read after Close.
+var ErrBodyClosed = errors.New("http: read on closed response body")
+
 func (b *Body) Read(p []byte) (int, error) {
 	b.Reads++
+	if b.Closed {
+		return 0, ErrBodyClosed
+	}
 	if b.Live {
 		vrt.Yield("body read")
 		if b.Ctx.Cancelled() {
